@@ -2,7 +2,7 @@
 import os
 from vf.core import *
 from props import sessb
-US = ['vf_copy.0:7', 'x_strlen.0:16', 'x__ZN4Poco3Net12StreamSocket9sendBytesEPKvii.0:14']
+US = ['x_memcmp.0:4', 'vf_copy.0:7', 'x_strlen.0:16', 'x__ZN4Poco3Net12StreamSocket9sendBytesEPKvii.0:14']
 
 def run(ctx):
     kf = known_findings('C16'); defs = kf_defines(kf)
